@@ -43,7 +43,7 @@ def relevant_verus(pid, cont, fn):
 
 
 def relevant_native(pid, h):
-    if pid == 'C19':
+    if pid == 'C19' or h.startswith('trusted_base_'):
         return True
     if pid == 'C01':
         return h.startswith(('type1_', 'full_', 'noindex_', 'combined_', 'forwarders_'))
